@@ -81,43 +81,69 @@ impl IgnoreStack {
         IgnoreStack(Arc::new(vec![]))
     }
 
-    /// If .gitignore file exists in given dir, creates a `Gitignore` struct for it
+    /// If `.gitignore` or `.fdignore` files exist in given dir, creates a `Gitignore` struct for them
     /// and returns the stack with the new `Gitignore` appended. Otherwise returns a cloned self.
     pub fn push(&self, dir: &Path, log: Option<&dyn Log>) -> IgnoreStack {
-        let mut path = Arc::new(dir.clone()).resolve(Path::from(".gitignore"));
-        let mut path_buf = path.to_path_buf();
-        if !path_buf.is_file() {
-            path = Arc::new(dir.clone()).resolve(Path::from(".fdignore"));
-            path_buf = path.to_path_buf();
-        }
-        if !path_buf.is_file() {
-            return self.clone();
-        }
-        let gitignore = Gitignore::new(&path_buf);
-        if let Some(err) = gitignore.1 {
-            if let Some(log) = log {
-                log.warn(format!(
-                    "Error while loading ignore file {}: {}",
-                    path.display(),
-                    err
-                ))
+        let dir = Arc::new(dir.clone());
+        let mut builder = GitignoreBuilder::new(dir.to_path_buf());
+        let mut found = false;
+        for file_name in [".gitignore", ".fdignore"] {
+            let path = dir.resolve(Path::from(file_name));
+            let path_buf = path.to_path_buf();
+            if !path_buf.is_file() {
+                continue;
+            }
+            found = true;
+            if let Some(err) = builder.add(&path_buf) {
+                if let Some(log) = log {
+                    log.warn(format!(
+                        "Error while loading ignore file {}: {}",
+                        path.display(),
+                        err
+                    ))
+                }
             }
         }
+        if !found {
+            return self.clone();
+        }
+        let gitignore = match builder.build() {
+            Ok(gitignore) => gitignore,
+            Err(err) => {
+                if let Some(log) = log {
+                    log.warn(format!(
+                        "Error while loading ignore files in {}: {}",
+                        dir.display(),
+                        err
+                    ))
+                }
+                return self.clone();
+            }
+        };
         let mut stack = self.0.as_ref().clone();
-        stack.push(gitignore.0);
+        stack.push(gitignore);
         IgnoreStack(Arc::new(stack))
     }
 
-    /// Returns true if any of the gitignore files in the stack selects given path
+    /// Returns true if the gitignore files in the stack select given path.
+    /// The rules in the ignore files of the nested directories take precedence
+    /// over the rules of their parents, so they can include a path again with `!`.
     pub fn matches(&self, path: &Path, is_dir: bool) -> bool {
         // this is on critical performance path, so avoid unnecessary to_path_buf conversion
         if self.0.is_empty() {
             return false;
         }
         let path = path.to_path_buf();
-        self.0
-            .iter()
-            .any(|gitignore| gitignore.matched(&path, is_dir).is_ignore())
+        for gitignore in self.0.iter().rev() {
+            let matched = gitignore.matched(&path, is_dir);
+            if matched.is_ignore() {
+                return true;
+            }
+            if matched.is_whitelist() {
+                return false;
+            }
+        }
+        false
     }
 }
 
